@@ -19,7 +19,7 @@ from ..engine.facts import dotted, const, src, walk_func, str_value, enclosing_s
 from . import skeletons as sk
 from . import c05  # declares-order is registered for C08 there
 from . import c18  # module-encoding (module-directory path writes what it declares) is registered for C08 there
-from .common import calls, stmt_nodes, param_names, kwmap, pn, access_paths, assigned_from
+from .common import calls, stmt_nodes, param_names, kwmap, pn, access_paths, assigned_from, resolve, resolve_deep
 
 
 SET_ATTRS_CACHE = {}
@@ -299,7 +299,7 @@ def render_prefix(ctx):
     ctx.check(bool(body) and body[0].value.value == "render_body" and "self.module.render_body" in src(ti), "body-name", db.where(ti), "body callable name disagrees between codegen and Template", "render_body")
 
 
-@rule("C08.one-pipeline", min_instances=8)
+@rule("C08.one-pipeline", min_instances=8, props=["C18"])
 def one_pipeline(ctx):
     """string, file and module-directory templates are compiled by the same _compile with identical wiring; all render entry points funnel into runtime._render / _render_context; the lookup mirrors Template's options"""
     db = ctx.db
@@ -356,8 +356,17 @@ def one_pipeline(ctx):
     # lookup mirrors Template options
     li = db.func("lookup.TemplateLookup.__init__")
     ta = [s for s in walk_func(li) if isinstance(s, ast.Assign) and dotted(s.targets[0]) == "self.template_args"]
-    ctx.require(ta and isinstance(ta[0].value, ast.Dict), "TemplateLookup.template_args not found")
-    keys = {const(k): src(v) for k, v in zip(ta[0].value.keys, ta[0].value.values)}
+    ctx.require(ta, "TemplateLookup.template_args not found")
+    tv = ta[0].value
+    if isinstance(tv, ast.Dict):
+        keys = {const(k): src(v) for k, v in zip(tv.keys, tv.values)}
+    elif isinstance(tv, ast.DictComp) and len(tv.generators) == 1 and isinstance(tv.generators[0].iter, (ast.Tuple, ast.List)) and all(isinstance(e_, ast.Constant) for e_ in tv.generators[0].iter.elts) \
+            and isinstance(tv.generators[0].target, ast.Name) and src(tv.key) == tv.generators[0].target.id and isinstance(tv.value, ast.Subscript) and src(tv.value.slice) == tv.generators[0].target.id \
+            and src(resolve_deep(li, tv.value.value, 2)) == "locals()":
+        # {name: locals()[name] for name in (<option names>)}
+        keys = {e_.value: e_.value for e_ in tv.generators[0].iter.elts}
+    else:
+        raise AnalysisError("C08.one-pipeline: TemplateLookup.template_args is built in a way the analysis does not follow")
     tparams = set(param_names(db.func("template.Template.__init__")))
     special = {"self", "text", "filename", "uri", "lookup", "module_filename", "cache_type", "cache_dir", "cache_url"}
     ctx.check(set(keys) <= tparams, "template_args.valid", db.where(ta[0]), "template_args has keys Template does not accept: %s" % sorted(set(keys) - tparams), "all keys are Template options")
